@@ -939,16 +939,59 @@ def run_c12(tier):
                                         "an additional, earlier emitted schedule (printed by the panic hook) does not reproduce the failure",
                                         "kind": kind, "schedule": sch, "replay": outs[:1]},
                              "sig": f"failure/replay-differs/{kind}" if is_last else f"failure/extra-schedule-not-replayable/{kind}"})
+    # ---- portfolio runs: fail exactly when a member does (Portfolio.tla enumerates the configurations)
+    from gen import op as _op, prog as _prog
+    race = _prog(8, "fail", [[_op("spawn", v=1), _op("load", o=0), _op("panic_if", v=1), _op("join", v=1)], [_op("store", o=0, v=1)]], atomics=[0])
+    pres = vlib.run_tlc("Portfolio", "Portfolio.cfg", {}, vlib.fresh_dir(os.path.join(wd, "portfolio-tlc")), workers=2, timeout=300)
+    pvecs = [json.loads(json.loads(p)) for p in vlib.tlc_lines(pres["out"], "PORT")]
+    nport = 0
+    for pv in pvecs:
+        nport += 1
+        d = vlib.fresh_dir(os.path.join(wd, "portfolio"))
+        rd = os.path.join(d, "dir")
+        os.makedirs(rd)
+        sp = os.path.join(d, "spec.json")
+        json.dump({"runs": [{"prog": race, "persist": pv["mode"], "dir": rd, "portfolio": pv["members"], "stop_on_first": pv["stop"]}]}, open(sp, "w"))
+        pr = subprocess.run([vlib.BIN, "failhist", "--spec", sp], cwd=d, stdout=subprocess.PIPE, stderr=subprocess.PIPE, text=True)
+        outs = [json.loads(x) for x in pr.stdout.splitlines() if x.strip().startswith("{")]
+        tag = f"{'+'.join(pv['members'])}:{pv['mode']}:{'stop' if pv['stop'] else 'all'}"
+        if pr.returncode != 0 or not outs:
+            problems.append({"kind": "failure-persistence", "detail": {"portfolio": tag, "what": f"process died ({pr.returncode})", "stderr": pr.stderr[-600:]},
+                             "sig": "failure/portfolio/process-died"})
+            continue
+        failed = outs[0].get("result") == "failed"
+        files = sorted(os.listdir(rd))
+        if failed != pv["fails"]:
+            problems.append({"kind": "failure-persistence", "detail": {"portfolio": tag, "what": f"run result {outs[0]}, members fail = {pv['fails']}"},
+                             "sig": "failure/portfolio/verdict"})
+        elif failed and "boom-race" not in outs[0].get("msg", ""):
+            problems.append({"kind": "failure-persistence", "detail": {"portfolio": tag, "what": f"payload {outs[0].get('msg')!r}"},
+                             "sig": "failure/portfolio/payload"})
+        if not (pv["minemit"] <= len(files) <= pv["maxemit"]):
+            problems.append({"kind": "failure-persistence", "detail": {"portfolio": tag, "what": f"{len(files)} schedule file(s), expected {pv['minemit']}..{pv['maxemit']}"},
+                             "sig": "failure/portfolio/emission-count"})
+        for fn in files:
+            sch = open(os.path.join(rd, fn)).read()
+            d2 = vlib.fresh_dir(os.path.join(wd, "portfolio-replay"))
+            sp2 = os.path.join(d2, "spec.json")
+            json.dump({"runs": [{"prog": race, "persist": "none", "replay": sch}]}, open(sp2, "w"))
+            pr2 = subprocess.run([vlib.BIN, "failhist", "--spec", sp2], cwd=d2, stdout=subprocess.PIPE, stderr=subprocess.PIPE, text=True)
+            o2 = [json.loads(x) for x in pr2.stdout.splitlines() if x.strip().startswith("{")]
+            nrep += 1
+            if not o2 or o2[0].get("result") != "failed" or "boom-race" not in o2[0].get("msg", ""):
+                problems.append({"kind": "failure-persistence", "detail": {"portfolio": tag, "what": "emitted schedule does not reproduce the failure", "replay": o2[:1]},
+                                 "sig": "failure/portfolio/replay-differs"})
     # the pinned-tree transcription must be refuted (self-check that the model can tell the difference)
     r2 = vlib.run_tlc("Failure", "Failure_pinned.cfg", {}, vlib.fresh_dir(os.path.join(wd, "pinned")), workers=4, timeout=600)
     totals = {"trace_states": res["states"] + r2["states"], "trace_transitions": res["transitions"] + r2["transitions"],
               "leaves_reached": len(results), "programs": len(progs)}
     extra = {"histories": len(results), "runs": nruns, "distinct_emitted_schedules_replayed": nrep, "runs_emitting_more_than_one_schedule": multi[0],
-             "pinned_tree_model_refuted": not r2["ok"], "exhaustive": tier == "quick",
+             "pinned_tree_model_refuted": not r2["ok"], "exhaustive": tier == "quick", "portfolio_configurations": nport,
              "checker_cmd": "tlc -config Failure.cfg Failure.tla ; vharness failhist (one child process per history)"}
     spec = {"assume": ["histories of at most 2 (quick) / 3 (thorough, sampled) runs in one process; modes None/Print/File; "
                        "kinds: pass, panic in main / thread / future / while holding a lock, deadlock, failing step bound; same or fresh OS thread",
-                       "portfolio runs are not covered yet"]}
+                       "portfolio runs: up to three members (a scheduler that finds the failing schedule / one that does not), stop-on-first on and off, "
+                       "persistence None / File; the same body for every member (as the API requires)"]}
     return finish("C12", tier, t0, spec, totals, [], problems, [sample] if sample else [{"note": "no emission"}], known, extra_cov=extra)
 
 
